@@ -319,7 +319,9 @@ func runInterp(c *engine.Ctx, focus string) {
 		runtime = newEnvNode(false, nil)
 	}
 	// values that are themselves names let a name built by expansion land on another entry's name
-	valPool := []string{"one", "two", "x y", "", "$FOO", "${BAR}", "$$BAZ", "v$K", "main", "/tmp/p", "a-b", "FOO", "BAR", "BAZ", "QUX"}
+	valPool := []string{"one", "two", "x y", "", "$FOO", "${BAR}", "$$BAZ", "v$K", "main", "/tmp/p", "a-b", "FOO", "BAR", "BAZ", "QUX",
+		// values with the characters a shell would use to split NAME=value pairs
+		"arch=arm64", "a=b=c", "=", "k: v"}
 	for i := 0; i < nrt; i++ {
 		name := w.universe[p.Draw(len(w.universe), "rt:name")]
 		runtime.Set(name, valPool[p.Draw(len(valPool), "rt:val")])
@@ -348,6 +350,10 @@ func runInterp(c *engine.Ctx, focus string) {
 		block := gen.Map()
 		for i := 0; i < n; i++ {
 			k := w.str("penv.name")
+			if p.Draw(16, "block:eqname") == 15 {
+				// a name is any string: an equals sign in it is part of it
+				k = []string{"TAG=latest", "A=B=C", "=LEAD", "TRAIL="}[p.Draw(4, "block:eqnamev")]
+			}
 			// case-variant duplicates of one name only without runtime precedence
 			for block.Has(k) || k == "" || k == "<<" || (prefer && hasFold(block.Keys, k)) {
 				k += "_"
